@@ -1639,6 +1639,21 @@ clientProcessRequest(ConnStateData *conn, const Http1::RequestParserPointer &hp,
         return;
     }
 
+    // A tunnel takes over the client connection: It cannot wait for, or share
+    // the connection with, responses to earlier pipelined requests.
+    if (http->request->method == Http::METHOD_CONNECT && conn->pipeline.count() > 1) {
+        debugs(33, 3, "refusing CONNECT pipelined behind " << (conn->pipeline.count() - 1) << " unfinished request(s)");
+        clientStreamNode *node = context->getClientReplyContext();
+        clientReplyContext *repContext = dynamic_cast<clientReplyContext *>(node->data.getRaw());
+        assert (repContext);
+        conn->quitAfterError(request.getRaw());
+        repContext->setReplyToError(ERR_INVALID_REQ, Http::scBadRequest, nullptr, conn, request.getRaw(), nullptr, nullptr);
+        assert(context->http->out.offset == 0);
+        context->pullData();
+        clientProcessRequestFinished(conn, request);
+        return;
+    }
+
     clientSetKeepaliveFlag(http);
     // Let tunneling code be fully responsible for CONNECT requests
     if (http->request->method == Http::METHOD_CONNECT) {
